@@ -10,12 +10,16 @@ package main
 import (
 	"fmt"
 	"math/big"
+	"strings"
 
+	"github.com/idena-network/idena-go/blockchain/attachments"
 	"github.com/idena-network/idena-go/blockchain/fee"
 	"github.com/idena-network/idena-go/blockchain/types"
 	"github.com/idena-network/idena-go/blockchain/validation"
 	"github.com/idena-network/idena-go/common"
 	"github.com/idena-network/idena-go/vm"
+	"github.com/idena-network/idena-go/vm/embedded"
+	"github.com/idena-network/idena-go/vm/env"
 
 	"verifharness/internal/chainfx"
 )
@@ -66,134 +70,36 @@ func (cc *caseCtx) runBlock(step func() (*types.Block, error)) error {
 		var seed types.Seed
 		seed.SetBytes(common.ToBytes(head + 1))
 		hdr := &types.Header{ProposedHeader: &types.ProposedHeader{Height: head + 1, Time: n.Chain.Head.Time() + 20, BlockSeed: seed}}
-		// reference: the same transactions one by one, a fresh VM each
-		R, err := n.App.ForCheck(head)
-		if err != nil {
-			return err
-		}
-		minFpg := fee.GetFeePerGasForNetwork(R.ValidatorsCache.NetworkSize())
-		var tis []txInfo
-		var refs []applied
-		var refDumps []fullDump
-		used := map[common.Address]bool{}
 		cc.g.lowGas = true
 		want := 2 + r.Intn(4)
-		for try := 0; try < 12 && len(tis) < want; try++ {
-			ti, ok := cc.g.next(n.App, hdr)
-			if !ok || used[ti.Sender] {
-				continue
+		var cands []txInfo
+		used := map[common.Address]bool{}
+		guided := r.Intn(3) == 0
+		if guided {
+			cands, hdr = cc.guidedBlock(hdr)
+		} else {
+			for try := 0; try < 12 && len(cands) < want; try++ {
+				ti, ok := cc.g.next(n.App, hdr)
+				if !ok || used[ti.Sender] {
+					continue
+				}
+				stx, err := types.SignTx(ti.Tx, w.Keys[w.Index(ti.Sender)])
+				if err != nil {
+					panic(err)
+				}
+				ti.Tx = stx
+				used[ti.Sender] = true
+				cands = append(cands, ti)
 			}
-			stx, err := types.SignTx(ti.Tx, w.Keys[w.Index(ti.Sender)])
-			if err != nil {
-				panic(err)
-			}
-			ti.Tx = stx
-			if func() (e error) {
-				defer func() {
-					if rec := recover(); rec != nil {
-						e = fmt.Errorf("panic")
-					}
-				}()
-				return validation.ValidateTx(R, stx, minFpg, validation.InBlockTx)
-			}() != nil {
-				c.Hit("block:rejected-by-validation")
-				continue
-			}
-			ap := applyWith(n, R, hdr, stx, func(v vm.VM) vm.VM { return v })
-			if ap.err != "" {
-				cc.fail("C15:validated-tx-refused-by-apply:"+ap.err, ti.Desc)
-				return nil
-			}
-			used[ti.Sender] = true
-			tis = append(tis, ti)
-			refs = append(refs, ap)
-			refDumps = append(refDumps, dumpAll(R.State, cc.codes))
 		}
 		cc.g.lowGas = false
-		if len(tis) < 2 {
-			continue
+		tis, descs, ok := cc.checkBlock(hdr, cands)
+		if !ok {
+			return nil
 		}
-		txs := make([]*types.Transaction, len(tis))
-		descs := ""
-		for i, ti := range tis {
-			txs[i] = ti.Tx
-			res := "-"
-			if refs[i].rc != nil {
-				res = fmt.Sprint(refs[i].rc.Success)
-			}
-			descs += fmt.Sprintf("[%d %s ok=%s] ", i+1, ti.Desc, res)
+		if len(tis) < 2 || guided {
+			continue // a guided block runs under a fabricated header (block time weeks ahead): it is not put on the chain
 		}
-		P0, err := n.App.ForCheck(head)
-		if err != nil {
-			return err
-		}
-		prev := dumpAll(P0.State, cc.codes)
-		for j := 1; j <= len(txs) && !cc.bad; j++ {
-			P, err := n.App.ForCheck(head)
-			if err != nil {
-				return err
-			}
-			var receipts types.TxReceipts
-			var perr error
-			func() {
-				defer func() {
-					if rec := recover(); rec != nil {
-						perr = fmt.Errorf("panic: %v", rec)
-					}
-				}()
-				_, _, receipts, _, perr = n.Chain.FxProcessTxs(P, hdr, txs[:j])
-			}()
-			if perr != nil {
-				cc.fail("C15:block-prefix-refused", fmt.Sprintf("processTxs on the first %d of %s: %v", j, descs, perr))
-				break
-			}
-			cur := dumpAll(P.State, cc.codes)
-			ti := tis[j-1]
-			// (1) one shared VM == a fresh VM per transaction
-			if d := diffDumps(cur, refDumps[j-1]); d != "" {
-				cc.fail("C15:stale-vm-buffers-leak", fmt.Sprintf("after %d of %s through ONE VM (processTxs) the state differs from the same transactions with a fresh VM each: %s", j, descs, d))
-			}
-			// (2) receipts agree
-			if isContractTx(ti.Tx.Type) {
-				var rc *types.TxReceipt
-				for _, x := range receipts {
-					if x.TxHash == ti.Tx.Hash() {
-						rc = x
-					}
-				}
-				if rc == nil || refs[j-1].rc == nil || rc.Success != refs[j-1].rc.Success || rc.GasUsed != refs[j-1].rc.GasUsed {
-					cc.fail("C15:stale-vm-buffers-leak", fmt.Sprintf("receipt of tx %d of %s differs between the shared VM and a fresh VM", j, descs))
-				} else if !rc.Success {
-					// (3) in the shared run a failed transaction changes nothing but its signer's balance / nonce / epoch
-					for a, x := range cur.accts {
-						y, ok := prev.accts[a]
-						if !ok {
-							y = acct{Bal: new(big.Int)}
-						}
-						if a == ti.Sender {
-							if x.conStr() != y.conStr() || x.storeStr() != y.storeStr() || x.Bal.Cmp(y.Bal) > 0 {
-								cc.fail("C15:failed-tx-left-trace", fmt.Sprintf("block: tx %d of %s failed, signer %s -> %s", j, descs, y, x))
-							}
-						} else if !x.equal(y) {
-							cc.fail("C15:failed-tx-left-trace", fmt.Sprintf("block: tx %d of %s failed but %s changed: %s -> %s", j, descs, a.Hex(), y, x))
-						}
-					}
-				}
-				c.Hit(fmt.Sprintf("block:tx:%v", rc != nil && rc.Success))
-			} else {
-				c.Hit("block:tx:aux")
-			}
-			// (4) no negative balance
-			for a, x := range cur.accts {
-				if x.Bal.Sign() < 0 || x.stake0().Sign() < 0 {
-					cc.fail("C15:negative-balance", fmt.Sprintf("block: after %d of %s: %s %s", j, descs, a.Hex(), x))
-				}
-			}
-			prev = cur
-			c.Rep.Evaluations++
-		}
-		c.Hit(fmt.Sprintf("block:size-%d", len(txs)))
-		c.Distinct("block|" + descs)
 		if cc.bad {
 			break
 		}
@@ -220,4 +126,245 @@ func (cc *caseCtx) runBlock(step func() (*types.Block, error)) error {
 		}
 	}
 	return nil
+}
+
+// checkBlock: the candidates that pass validation in sequence, (a) one by one with a fresh VM each on a reference state,
+// (b) every prefix through processTxs (ONE VM) on a fresh check state; all oracles of the block mode.
+func (cc *caseCtx) checkBlock(hdr *types.Header, cands []txInfo) (tis []txInfo, descs string, ok bool) {
+	c, n := cc.c, cc.n
+	head := n.Chain.Head.Height()
+	R, err := n.App.ForCheck(head)
+	if err != nil {
+		cc.fail("C15:harness-forcheck", err.Error())
+		return nil, "", false
+	}
+	minFpg := fee.GetFeePerGasForNetwork(R.ValidatorsCache.NetworkSize())
+	var refs []applied
+	var refDumps []fullDump
+	for _, ti := range cands {
+		stx := ti.Tx
+		if func() (e error) {
+			defer func() {
+				if rec := recover(); rec != nil {
+					e = fmt.Errorf("panic")
+				}
+			}()
+			return validation.ValidateTx(R, stx, minFpg, validation.InBlockTx)
+		}() != nil {
+			c.Hit("block:rejected-by-validation")
+			continue
+		}
+		ap := applyWith(n, R, hdr, stx, func(v vm.VM) vm.VM { return v })
+		if ap.err != "" {
+			cc.fail("C15:validated-tx-refused-by-apply:"+ap.err, ti.Desc)
+			return nil, "", false
+		}
+		tis = append(tis, ti)
+		refs = append(refs, ap)
+		refDumps = append(refDumps, dumpAll(R.State, cc.codes))
+	}
+	if len(tis) < 2 {
+		return tis, "", true
+	}
+	total := func(d fullDump) *big.Int {
+		t := new(big.Int)
+		for _, x := range d.accts {
+			t.Add(t, x.Bal)
+			t.Add(t, x.stake0())
+		}
+		return t
+	}
+	txs := make([]*types.Transaction, len(tis))
+	for i, ti := range tis {
+		txs[i] = ti.Tx
+		res := "-"
+		if refs[i].rc != nil {
+			res = fmt.Sprint(refs[i].rc.Success)
+		}
+		descs += fmt.Sprintf("[%d %s ok=%s] ", i+1, ti.Desc, res)
+	}
+	P0, err := n.App.ForCheck(head)
+	if err != nil {
+		cc.fail("C15:harness-forcheck", err.Error())
+		return nil, "", false
+	}
+	prev := dumpAll(P0.State, cc.codes)
+	for j := 1; j <= len(txs) && !cc.bad; j++ {
+		P, err := n.App.ForCheck(head)
+		if err != nil {
+			cc.fail("C15:harness-forcheck", err.Error())
+			return nil, "", false
+		}
+		var receipts types.TxReceipts
+		var perr error
+		func() {
+			defer func() {
+				if rec := recover(); rec != nil {
+					perr = fmt.Errorf("panic: %v", rec)
+				}
+			}()
+			_, _, receipts, _, perr = n.Chain.FxProcessTxs(P, hdr, txs[:j])
+		}()
+		if perr != nil {
+			cc.fail("C15:block-prefix-refused", fmt.Sprintf("processTxs on the first %d of %s: %v", j, descs, perr))
+			break
+		}
+		cur := dumpAll(P.State, cc.codes)
+		ti := tis[j-1]
+		// (1) one shared VM == a fresh VM per transaction
+		if d := diffDumps(cur, refDumps[j-1]); d != "" {
+			cc.fail("C15:stale-vm-buffers-leak", fmt.Sprintf("after %d of %s through ONE VM (processTxs) the state differs from the same transactions with a fresh VM each: %s", j, descs, d))
+		}
+		// (2) receipts agree
+		if isContractTx(ti.Tx.Type) {
+			var rc *types.TxReceipt
+			for _, x := range receipts {
+				if x.TxHash == ti.Tx.Hash() {
+					rc = x
+				}
+			}
+			if rc == nil || refs[j-1].rc == nil || rc.Success != refs[j-1].rc.Success || rc.GasUsed != refs[j-1].rc.GasUsed {
+				cc.fail("C15:stale-vm-buffers-leak", fmt.Sprintf("receipt of tx %d of %s differs between the shared VM and a fresh VM", j, descs))
+			} else if !rc.Success {
+				// (3) in the shared run a failed transaction changes nothing but its signer's balance / nonce / epoch
+				for a, x := range cur.accts {
+					y, ok := prev.accts[a]
+					if !ok {
+						y = acct{Bal: new(big.Int)}
+					}
+					if a == ti.Sender {
+						if x.conStr() != y.conStr() || x.storeStr() != y.storeStr() || x.Bal.Cmp(y.Bal) > 0 {
+							cc.fail("C15:failed-tx-left-trace", fmt.Sprintf("block: tx %d of %s failed, signer %s -> %s", j, descs, y, x))
+						}
+					} else if !x.equal(y) {
+						cc.fail("C15:failed-tx-left-trace", fmt.Sprintf("block: tx %d of %s failed but %s changed: %s -> %s", j, descs, a.Hex(), y, x))
+					}
+				}
+			}
+			c.Hit(fmt.Sprintf("block:tx:%v", rc != nil && rc.Success))
+			if ti.Tx.Type == types.TerminateContractTx || strings.HasSuffix(ti.Desc, ".addStake") {
+				c.Hit(fmt.Sprintf("block:%s:%v", ti.Desc, rc != nil && rc.Success))
+			}
+		} else {
+			c.Hit("block:tx:aux")
+		}
+		// (4) a transaction never makes balances + contract stakes grow; a terminated contract is gone
+		if g := new(big.Int).Sub(total(cur), total(prev)); g.Sign() > 0 {
+			cc.fail("C15:value-created", fmt.Sprintf("block: tx %d of %s through ONE VM made balances+stakes grow by %s", j, descs, g))
+		}
+		if ti.Tx.Type == types.TerminateContractTx && ti.Tx.To != nil {
+			for _, x := range receipts {
+				if x.TxHash == ti.Tx.Hash() && x.Success {
+					if y, ok := cur.accts[*ti.Tx.To]; ok && y.HasCon {
+						cc.fail("C15:value-not-conserved", fmt.Sprintf("block: tx %d of %s terminated %s successfully but the contract record is still there: %s", j, descs, ti.Tx.To.Hex(), y))
+					}
+				}
+			}
+		}
+		// (5) no negative balance
+		for a, x := range cur.accts {
+			if x.Bal.Sign() < 0 || x.stake0().Sign() < 0 {
+				cc.fail("C15:negative-balance", fmt.Sprintf("block: after %d of %s: %s %s", j, descs, a.Hex(), x))
+			}
+		}
+		prev = cur
+		c.Rep.Evaluations++
+	}
+	c.Hit(fmt.Sprintf("block:size-%d", len(txs)))
+	c.Distinct("block|" + descs)
+	return tis, descs, true
+}
+
+// guidedBlock: same-block sequences that buffer something about a contract X and then terminate X successfully:
+//
+//	[deploy voting X, (fund X), addStake X (amount > 0), (a failing call), terminate X]   under a header 40 days ahead
+//	  (a voting that was never started may be terminated by anybody 30 days after its start time)
+//	[addStake X', terminate X'] for a pending voting X' already on the chain
+//	[deploy multisig M, add voter (store writes), terminate M]  /  [deploy time lock T, terminate T]   by the owner
+func (cc *caseCtx) guidedBlock(hdr *types.Header) ([]txInfo, *types.Header) {
+	n, w, r := cc.n, cc.w, cc.r
+	st := n.App
+	fpg := st.State.FeePerGas()
+	nonces := map[int]uint32{}
+	mk := func(ki int, tx *types.Transaction, desc string, lowGas bool) txInfo {
+		a := w.Addrs[ki]
+		if _, ok := nonces[ki]; !ok {
+			nn := st.State.GetNonce(a)
+			if st.State.GetEpoch(a) < st.State.Epoch() {
+				nn = 0
+			}
+			nonces[ki] = nn
+		}
+		nonces[ki]++
+		tx.AccountNonce, tx.Epoch = nonces[ki], st.State.Epoch()
+		tx.MaxFee = new(big.Int).Mul(fpg, big.NewInt(400000))
+		if lowGas {
+			tx.MaxFee = new(big.Int).Mul(fpg, big.NewInt(int64(2500+r.Intn(900))))
+		}
+		stx, err := types.SignTx(tx, w.Keys[ki])
+		if err != nil {
+			panic(err)
+		}
+		return txInfo{Tx: stx, Sender: a, Desc: desc}
+	}
+	users := r.Perm(len(w.Keys) - 1)
+	u := func(i int) int { return 1 + users[i%len(users)] }
+	minStake := new(big.Int).Mul(fpg, big.NewInt(3000000))
+	far := &types.Header{ProposedHeader: &types.ProposedHeader{Height: hdr.Height(), Time: hdr.Time() + 40*24*3600, BlockSeed: hdr.Seed()}}
+	var out []txInfo
+	term := func(ki int, x common.Address, what string) txInfo {
+		p, _ := attachments.CreateTerminateContractAttachment(w.Addrs[u(5)].Bytes()).ToBytes()
+		return mk(ki, &types.Transaction{Type: types.TerminateContractTx, To: &x, Payload: p}, "terminate-"+what, false)
+	}
+	callTx := func(ki int, x common.Address, method string, amt *big.Int, low bool, what string, args ...[]byte) txInfo {
+		p, _ := attachments.CreateCallContractAttachment(method, args...).ToBytes()
+		return mk(ki, &types.Transaction{Type: types.CallContractTx, To: &x, Amount: amt, Payload: p}, "call-"+what+"."+method, low)
+	}
+	switch k := r.Intn(5); {
+	case k <= 1: // a voting deployed, staked and terminated within one block
+		args := [][]byte{[]byte("fact"), u64(uint64(hdr.Time() - 100)), u64(30), u64(100), {60}, {1}, u64(100), big.NewInt(100).Bytes(), {0}}
+		p, _ := attachments.CreateDeployContractAttachment(embedded.OracleVotingContract, nil, nil, args...).ToBytes()
+		dep := mk(u(0), &types.Transaction{Type: types.DeployContractTx, Amount: new(big.Int).Add(minStake, big.NewInt(int64(r.Intn(5)))), Payload: p}, "deploy-voting", false)
+		x := env.ComputeContractAddr(dep.Tx, dep.Sender)
+		out = append(out, dep)
+		if r.Intn(2) == 0 {
+			out = append(out, mk(u(1), &types.Transaction{Type: types.SendTx, To: &x, Amount: chainfx_dna(int64(1 + r.Intn(50)))}, "fund-voting", false))
+		}
+		out = append(out, callTx(u(2), x, "addStake", chainfx_dna(int64(1+r.Intn(30))), false, "voting"))
+		if r.Intn(2) == 0 {
+			out = append(out, callTx(u(3), x, "addStake", chainfx_dna(int64(1+r.Intn(30))), true, "voting")) // may run out of gas
+		}
+		out = append(out, term(u(4), x, "voting"))
+		return out, far
+	case k == 2: // a pending voting of the chain
+		if c := cc.g.find(func(c *contract) bool { return c.typ == 2 && c.phase == 0 }); c != nil {
+			out = append(out, callTx(u(0), c.addr, "addStake", chainfx_dna(int64(1+r.Intn(30))), false, "voting"))
+			if r.Intn(2) == 0 {
+				out = append(out, callTx(u(1), c.addr, "startVoting", nil, true, "voting"))
+			}
+			out = append(out, term(u(2), c.addr, "voting"))
+			return out, far
+		}
+		fallthrough
+	case k == 3: // a multisig deployed, written to and terminated by its owner
+		p, _ := attachments.CreateDeployContractAttachment(embedded.MultisigContract, nil, nil, []byte{2}, []byte{1}).ToBytes()
+		dep := mk(u(0), &types.Transaction{Type: types.DeployContractTx, Amount: new(big.Int).Set(minStake), Payload: p}, "deploy-multisig", false)
+		x := env.ComputeContractAddr(dep.Tx, dep.Sender)
+		out = append(out, dep, callTx(u(0), x, "add", nil, false, "multisig", w.Addrs[u(1)].Bytes()))
+		if r.Intn(2) == 0 {
+			out = append(out, callTx(u(0), x, "add", nil, true, "multisig", w.Addrs[u(2)].Bytes()))
+		}
+		out = append(out, term(u(0), x, "multisig"))
+		return out, hdr
+	default: // a time lock deployed and terminated by its owner
+		p, _ := attachments.CreateDeployContractAttachment(embedded.TimeLockContract, nil, nil, u64(1)).ToBytes()
+		dep := mk(u(0), &types.Transaction{Type: types.DeployContractTx, Amount: new(big.Int).Add(minStake, big.NewInt(int64(r.Intn(3)))), Payload: p}, "deploy-timelock", false)
+		x := env.ComputeContractAddr(dep.Tx, dep.Sender)
+		out = append(out, dep)
+		if r.Intn(2) == 0 {
+			out = append(out, callTx(u(1), x, "transfer", big.NewInt(5), true, "timelock", w.Addrs[u(2)].Bytes(), big.NewInt(1).Bytes()))
+		}
+		out = append(out, term(u(0), x, "timelock"))
+		return out, hdr
+	}
 }
